@@ -6,7 +6,7 @@ import struct
 from vlib import core, e2e
 from vlib.coord_common import first_diff
 
-MODS = ['S4V.Props.SortSpec', 'S4V.Props.FilterSpec', 'S4V.Props.FixedSpec']
+MODS = ['S4V.Props.SortSpec', 'S4V.Props.FilterSpec', 'S4V.Props.FixedSpec', 'S4V.Props.FixedRenderSpec']
 LEVEL_NOTE = ("Proved over the model of `insert into BTreeMap, walk in key order` with the key shape, the window comparisons and the null-record test "
               "regenerated from fixedstructreader.rs on every run: every non-null in-window record exactly once, ordered by time value, equal times in file order "
               "(C08_order = stable sort), both window bounds inclusive. WHICH value is the record's time is proved too (FixedSpec), over a table regenerated from "
@@ -15,9 +15,17 @@ LEVEL_NOTE = ("Proved over the model of `insert into BTreeMap, walk in key order
               "(C08_tv_types_agree by decide over the table, C08_tv_denotes, C08_tv_monotone_unsigned for u32 fields across 2^31, C08_file_order over record bytes). "
               "Tied to the code by (1) the real tv_pair_from_buffer and FixedStruct::new on random/boundary records of every layout against the model (component `fixed`), "
               "(2) the real binary on synthesised Linux wtmp (utmpx), pacct (acct_v3) and lastlog files with times across 2^31, comparing the printed record order with the "
-              "model's (`sort fixed` on times, `fixed sort` on the record bytes). Field rendering (as_bytes) is compared with the generator's own values (testing).")
-ASSUME = ["record -> text (FixedStruct::as_bytes, 16 layouts) is not modelled; the Linux x86_64 utmpx, acct_v3 (pacct) and lastlog layouts are synthesised end to end, "
-          "the other 13 layouts are covered by the in-process correspondence `fixed` (time value only) and the shipped samples",
+              "model's (`sort fixed` on times, `fixed sort` on the record bytes). The text of a record is proved too (FixedRenderSpec over Gen.FixedRender: every arm of FixedStruct::as_bytes translated into a render program, "
+              "fields resolved to offset/size/type from the struct definitions, the 14 set_buffer_at_or_err_* macro bodies pinned): for all 16 layouts every read lies inside the one "
+              "struct field the op names and inside the record (C08_render_fields_in_bounds, C08_render_locality: the line of record k depends only on record k's bytes); the line is "
+              "label/value pieces with pairwise distinct non-empty labels, each value the canonical text of the decoded field (C08_render_shape); shown + omitted = all fields "
+              "(C08_render_covers_fields, omitted list per layout); every number is read with the field's declared type (C08_render_types_agree); the datetime shown is the field the "
+              "sort key comes from (C08_render_time_is_key_field); different values of a shown number render differently (C08_render_injective_on_shown_num). Tied by component `frender`: "
+              "the real FixedStruct::new + as_bytes on random/structured records of every layout, byte for byte.")
+ASSUME = ["the Linux x86_64 utmpx, acct_v3 (pacct) and lastlog layouts are synthesised end to end; the other 13 layouts are covered by the in-process correspondences "
+          "`fixed` (time value) and `frender` (text) and the shipped samples",
+          "as_bytes: text fields with bytes >= 0x80 print NUL bytes (c_char is i8), a newline inside a text field splits the line, the trailing NUL (F12) - modelled as coded, "
+          "proved as counter-models (C08_render_injective_on_shown_full_false, C08_render_single_line_full_false)",
           "layout detection (filesz_to_types / score_file) is not modelled (synthesised files are built so that the intended layout scores highest)",
           "byte order: both readers are native pointer reads; the model decodes little-endian (x86_64 / aarch64 builds)",
           "struct layout computation in the translator assumes x86_64 C layout (primitive alignment = size); all 167 assertcp_eq! layout assertions of "
@@ -369,7 +377,7 @@ def model_compare(ctx, name, reqs, impl):
 
 
 def check(ctx):
-    ok_gen = core.step_gen(ctx, ['Keys', 'Filter', 'Fixed'])
+    ok_gen = core.step_gen(ctx, ['Keys', 'Filter', 'Fixed', 'FixedRender'])
     prove = core.step_prove(ctx, MODS) if ok_gen else {'module': ' '.join(MODS), 'obligations': 0, 'discharged': 0}
     ok_drv = core.step_drv(ctx) if (ok_gen or ctx.search_mode) else False
     ok_impl = core.step_build_impl(ctx)
@@ -378,6 +386,8 @@ def check(ctx):
         if ok_drv:
             # the real tv_pair_from_buffer / FixedStruct::new on records of every layout vs the model over the generated table
             corr.append(core.correspond(ctx, 'fixed', ctx.q(3600, 16000)))
+            # the real FixedStruct::as_bytes on records of every layout vs the render programs translated from it
+            corr.append(core.correspond(ctx, 'frender', ctx.q(8000, 64000)))
         orc1, corr1 = oracle_and_corr(ctx)
         orc2, corr2 = oracle_and_corr2(ctx)
         orc = core.merge_oracles([orc1, orc2])
